@@ -5,6 +5,8 @@
 cd "$(dirname "$0")"
 if [ -n "$(git -C /repo status --porcelain)" ]; then echo "refusing: /repo has local changes"; exit 2; fi
 rc=0
+# evidence of these runs (on a modified tree) must not replace the committed evidence
+export VERIF_EVIDENCE_DIR=$(mktemp -d /tmp/seed-evidence.XXXXXX)
 for d in seeded/*/; do
   id=$(basename "$d")
   props=$(python3 -c "import json,sys;m=json.load(open('$d/meta.json'));print(' '.join(m['detected_by'].keys()))")
@@ -15,6 +17,6 @@ for d in seeded/*/; do
   done
   git -C /repo checkout -- .
 done
-rm -f /tmp/seedcheck.$$
+rm -f /tmp/seedcheck.$$; rm -rf "$VERIF_EVIDENCE_DIR"
 [ -z "$(git -C /repo status --porcelain)" ] || { echo "/repo left dirty"; rc=1; }
 exit $rc
